@@ -26,7 +26,7 @@ PROP_MODULES = {
     "C15": ["contracts.c15", "contracts.c13", "contracts.c08", "contracts.c10", "contracts.c17", "contracts.c14"],
     "C16": ["contracts.c16", "contracts.c16_bounded"],
     "C09": ["contracts.c09", "contracts.c09_bounded"],
-    "C10": ["contracts.c10"],
+    "C10": ["contracts.c10", "contracts.c10b", "contracts.c10_bounded"],
     "C17": ["contracts.c17", "contracts.c05", "contracts.c17_bounded"],
     "C18": ["contracts.c18", "contracts.c18_bounded"],
 }
